@@ -12,7 +12,10 @@
 (* SIGABRT exactly when the build has assertions and QuiescentAllowed is   *)
 (* false; otherwise it ran to completion.  The invariants of QsbrPtr are   *)
 (* checked in every state.  Fully recorded, hence deterministic: accepted  *)
-(* iff the whole trace is consumed.                                        *)
+(* iff the whole trace is consumed.  The specification is that of ONE      *)
+(* thread: in recordings made with --foreign a second QSBR thread holds a  *)
+(* wrapper of its own throughout; its activity ("Foreign" events) changes  *)
+(* nothing here, which is the "created on that thread" clause of C17.      *)
 (***************************************************************************)
 EXTENDS QsbrPtr, Json, IOUtils
 
@@ -42,7 +45,7 @@ CovIdx(name) == 100 + (CHOOSE i \in 1..Len(Hdr.ops) : Hdr.ops[i] = name)
 Cov(name) == TLCSet(CovIdx(name), TLCGet(CovIdx(name)) + 1)
 
 TOp ==
-  /\ Ev.e \notin {"Probe", "end"}
+  /\ Ev.e \notin {"Probe", "Foreign", "end"}
   /\ Do(Ev)
   /\ act'.res = Ev.res
   /\ act'.op = Ev.e /\ act'.x = Ev.x /\ act'.y = Ev.y /\ act'.z = Ev.z /\ act'.u = Ev.u
@@ -61,6 +64,13 @@ TProbe ==
   /\ Cov(IF Rejected THEN "ProbeRejected" ELSE "ProbeAccepted")
   /\ UNCHANGED vars
 
+\* another thread destroyed and re-created a wrapper of its own and passed through a
+\* quiescent state (--foreign): this thread's registry is unaffected -- the probes
+\* that follow are judged as before
+TForeign ==
+  /\ Ev.e = "Foreign"
+  /\ UNCHANGED vars
+
 \* the recorder's last line: everything has been destroyed
 TEnd ==
   /\ Ev.e = "end"
@@ -71,7 +81,7 @@ TEnd ==
 TNext ==
   /\ l <= Len(JTrace)
   /\ l' = l + 1
-  /\ TOp \/ TProbe \/ TEnd
+  /\ TOp \/ TProbe \/ TForeign \/ TEnd
 
 TInit == /\ Init /\ l = 2
          /\ \A i \in 1..Len(Hdr.ops) : TLCSet(100 + i, 0)
